@@ -367,7 +367,22 @@ fn gen_family(t: &mut Tape) -> (GameMode, Vec<PathControlPoint>) {
     let pts = match fam {
         0 => {
             let n = 2 + t.below(9);
-            mk(t, PathType::BEZIER, n)
+            if t.chance(25) {
+                // a smooth, gently bending control polygon: points evenly spaced on a large circle (non-integer
+                // coordinates, tiny second differences) - still a curve, not a straight line
+                let r = *t.pick(&[300.0f64, 1000.0, 2000.0, 5000.0]);
+                let step = *t.pick(&[5.0f64, 10.0, 20.0, 40.0]) / r;
+                let a0 = t.unit() * std::f64::consts::TAU;
+                let (cx, cy) = (t.unit() * 400.0 - 200.0, t.unit() * 400.0 - 200.0);
+                (0..n.max(3))
+                    .map(|i| {
+                        let a = a0 + step * i as f64;
+                        PathControlPoint { pos: Pos::new((cx + r * a.cos()) as f32, (cy + r * a.sin()) as f32), path_type: if i == 0 { Some(PathType::BEZIER) } else { None } }
+                    })
+                    .collect()
+            } else {
+                mk(t, PathType::BEZIER, n)
+            }
         }
         1 => {
             // three-point arcs incl. near-collinear triples
